@@ -58,7 +58,7 @@ FLAGS = {"sym": ["symbol produced / size known", "codeword count / padding / sym
          "la": ["look-ahead result"]}
 
 
-def judge(ctx, inputs, label, preds=None):
+def judge(ctx, inputs, label, preds=None, annotate=None):
     if not inputs:
         return []
     for i, e in enumerate(inputs):
@@ -71,6 +71,8 @@ def judge(ctx, inputs, label, preds=None):
         key = (o["op"], tuple(o.get("text", ())[:64]), len(o.get("text", ())), o.get("shape"), tuple(o.get("mn", ())), tuple(o.get("mx", ())),
                o.get("n"), o.get("nr"), o.get("nc"), len(o.get("data", ())), o.get("w"), o.get("h"), tuple(o.get("img", ())))
         ctx.count_case(key)
+    if annotate and bad:
+        annotate(ctx, [obs[gi] for gi, _ in bad])
     for gi, ent in bad:
         o = obs[gi]
         names = FLAGS.get(o["op"], [])
@@ -85,9 +87,9 @@ def judge(ctx, inputs, label, preds=None):
     return obs
 
 
-def replay(ctx, path, preds=None):
+def replay(ctx, path, preds=None, annotate=None):
     r = json.load(open(path))
-    judge(ctx, r["inputs"], "replay", preds=preds)
+    judge(ctx, r["inputs"], "replay", preds=preds, annotate=annotate)
     return vlib.finish(ctx, rule="replay of recorded inputs")
 
 
